@@ -64,8 +64,8 @@ DgS(e) ==
        Rec2(t, [op |-> "dg_send", e |-> e, id |-> id, host |-> host, port |-> 9, data |-> data])
 DgG(e) == \E t \in GetDgram(st, e) : Rec2(t, [op |-> "dg_get", e |-> e])
 Task(e) ==
-  \E gr \in {0, 1}, gs \in {0, 1} :
-     \E t \in TaskPoll(st, e, gr, gs) : Rec2(t, [op |-> "task", e |-> e, gr |-> gr, gs |-> gs])
+  \E gr \in {0, 1}, gs \in {0, 1}, gf \in {1, 1, 1, 0} :
+     \E t \in TaskPollF(st, e, gr, gs, gf) : Rec2(t, [op |-> "task", e |-> e, gr |-> gr, gs |-> gs, gf |-> gf])
 Flt(e) ==
   /\ st.healthy
   /\ \E k \in Faults :
